@@ -418,6 +418,8 @@ fn gen_module(id: usize, sh: &Shape) -> String {
         }
     }
     s += "            .build();\n";
+    // a cycle far below f32::EPSILON seconds is still a positive duration and is reported as configured
+    s += &format!("        {{ let tiny = {w}::timeline().duration_seconds(5.9604645e-8).repeat(Repeat::Times(1)).build(); r.checks += 2; if tiny.cycle_duration() != Some(5.9604645e-8) || tiny.duration() != 1.1920929e-7 {{ r.bad(id, format!(\"metadata: cycle 2^-24 s reported as {{:?}}, total {{}}\", tiny.cycle_duration(), tiny.duration())); }} }}\n");
     s += "        r.checks += 4;\n        if tl.delay() != 0.5 || tl.cycle_duration() != Some(2.0) || tl.repeat() != Repeat::Times(1) || tl.duration() != 4.5 { r.bad(id, format!(\"metadata: delay {} cycle {:?} repeat {:?} duration {}\", tl.delay(), tl.cycle_duration(), tl.repeat(), tl.duration())); }\n";
     s += "        for j in 0..=40 {\n            let time = j as f32 * 0.125;\n            let mut t = sentinel.clone();\n            tl.update(&mut t, time);\n            let q = ref_pos(time as f64);\n";
     for i in 0..n {
